@@ -22,7 +22,9 @@ import (
 
 var treeFiles = []string{"a.txt", "b.go", "d/a.txt", "d/b.go", "d/e/a.txt", "d/e/c.go", "build/out.bin", "gen/x.go", "pkg/generic/types.go", "pkg/gen.txt", "x/.hidden", ".top"}
 
-var consumerPool = []string{"*", "**", "*.txt", "**/*.txt", "**/*.go", "d/*", "d/**", "d", "build", "**/gen*", "*/*", "?.txt", "d/e", "**/e/**", "pkg/**", "*.go", "**/a.txt", ".*", "x/*", "**/.*"}
+var consumerPool = []string{"*", "**", "*.txt", "**/*.txt", "**/*.go", "d/*", "d/**", "d", "build", "**/gen*", "*/*", "?.txt", "d/e", "**/e/**", "pkg/**", "*.go", "**/a.txt", ".*", "x/*", "**/.*",
+	// "?" is one character, the separator included: patterns without any "/" that reach into directories
+	"d?a.txt", "d?e?c.go", "pk??gen.txt"}
 
 type printRec struct {
 	dawn.Events
